@@ -57,6 +57,7 @@ var c08Corpus = []string{
 	`A / Z`, `NilIt.Name`, `Ints[100]`, `S matches BadRe`, `1.5 * X + 2.25`, `{"a": A, "b": [S, T]}`, `A in 1..10`, `len(1..50) + len(S)`,
 	`all(Strs, {# matches "^[a-z]*$"})`, `Fast(1, "a", X)`, `FnVar(1, 2, 3)`, `MA["a"] == nil`, `Anys[0] == nil ? 1 : 2`, `X ** 2 + F32`, `one(PItems, {# == nil})`,
 	`S matches Re`, `T matches S + ".*"`, `any(Strs, {# matches Re})`, `count(Strs, {T matches "^" + # + "$"}) >= 0`, `It.Name matches (Re + "|" + S)`, `map(Items, {.Name matches Re})`,
+	`"a\tb" + S`, `'\u00e9\x41' == T`, `S contains "\n" or T startsWith "q\"q"`, `["\\", "\a\b", 'x\'y'][A % 3 < 0 ? 0 : 1]`, `{"k\u0041": S + "\r\n"}`,
 	`2 + 3 * 4 == 14`, `"con" + "cat" == "concat"`, `(1..5)[2]`, `A not in [10, 20] and S not in ["zz"]`,
 }
 
